@@ -87,6 +87,29 @@ pub fn check_pair(a: &str, b: &str) -> Vec<Violation> {
     out
 }
 
+/// `#import` targets: a specifier written in file `a` (absolute path, any spelling) names the file at
+/// normalise(directory of normalise(a) / specifier) - or normalise(specifier) when the specifier is absolute
+pub fn check_import_target(a: &str, spec: &str) -> Vec<Violation> {
+    let mut out = vec![];
+    let Some(na) = ref_norm(a) else { return out };
+    if na.is_empty() {
+        return out;
+    }
+    let expected = if spec.starts_with('/') { ref_norm(spec) } else { ref_norm(&format!("{}/{spec}", join_abs(&na[..na.len() - 1]))) };
+    let Some(expected) = expected else { return out };
+    let replay = json!({"property":"C20","kind":"import-target","a":a,"spec":spec});
+    let class = if spec.starts_with('/') { "absolute-specifier" } else if spec.starts_with("./") || spec.starts_with("../") { "dotted-specifier" } else { "bare-specifier" };
+    match guarded(|| resolve_relative_path(Path::new(a), Path::new(spec))) {
+        Err(p) => out.push(Violation { sig: format!("C20|panic|resolve_relative_path|{}", p.site()), detail: format!("resolve_relative_path({a:?},{spec:?}) panicked: {}", p.msg), replay }),
+        Ok(res) => {
+            if res != PathBuf::from(join_abs(&expected)) {
+                out.push(Violation { sig: format!("C20|import-target-resolves-elsewhere|{class}"), detail: format!("resolve_relative_path({a:?}, {spec:?}) = {res:?}, but the specifier names {:?}", join_abs(&expected)), replay });
+            }
+        }
+    }
+    out
+}
+
 fn enumerate_paths(alphabet: &[&str], depth: usize) -> Vec<String> {
     let mut all = vec![];
     let mut cur: Vec<Vec<&str>> = vec![vec![]];
@@ -126,6 +149,10 @@ pub fn run(ctx: &Ctx, rep: &mut Report) {
             rep.eval();
             let vs = check_pair(a, b);
             rep.violations(vs);
+            // b also read as an #import specifier written in file a: absolute, bare relative, ./-relative
+            rep.violations(check_import_target(a, b));
+            rep.violations(check_import_target(a, &b[1..]));
+            rep.violations(check_import_target(a, &format!(".{b}")));
         }
         if i < 400 {
             // count distinct non-trivial: pairs with distinct normal forms and at least one dot component
@@ -181,12 +208,17 @@ pub fn run(ctx: &Ctx, rep: &mut Report) {
         }
         let vs = check_pair(&a, &b);
         rep.violations(vs);
+        rep.count("random_import_targets");
+        rep.violations(check_import_target(&a, &b));
+        rep.violations(check_import_target(&a, b.trim_start_matches('/')));
+        rep.violations(check_import_target(&a, &format!("..{b}")));
     }
     rep.sample(json!({"a": "/x/../y/./x", "b": "/y/x/..", "kind": "exhaustive-member"}));
 }
 
 pub fn replay(case: &Value) -> Vec<Violation> {
     match case["kind"].as_str() {
+        Some("import-target") => check_import_target(case["a"].as_str().unwrap_or(""), case["spec"].as_str().unwrap_or("")),
         Some("pair") => check_pair(case["a"].as_str().unwrap_or(""), case["b"].as_str().unwrap_or("")),
         _ => vec![],
     }
